@@ -168,7 +168,9 @@ def check_steady(ctx, cuqi, c, idx):
                      "observation map", fwd_exp, obs)
     # PDEModel = Observe o Solve o Assemble
     try:
-        model = _quiet(lambda: cuqi.model.PDEModel(pde, range_geometry=len(fwd_exp), domain_geometry=2))
+        # a fresh PDE object whose FIRST assembly is for another parameter (a retained parameter / system would show)
+        pde_m = cuqi.pde.SteadyStateLinearPDE(form, **pde_kw)
+        model = _quiet(lambda: cuqi.model.PDEModel(pde_m, range_geometry=len(fwd_exp), domain_geometry=2))
         other = th + np.array([0.5, -0.25])
         y_other = _quiet(lambda: model.forward(other))
         y = np.asarray(_quiet(lambda: model.forward(th)), dtype=float)
@@ -260,16 +262,21 @@ def check_time(ctx, cuqi, c, idx):
     if not (isinstance(out, tuple) and len(out) == 2):
         ctx.mismatch(key + "/solve_shape", c, "solve() does not return (solution, info)", "(solution, info)", repr(out)[:200])
         return
+    if idx % 4 == 1 and c["status"] == "done":
+        _method_spelling(ctx, cuqi, c, kw, th, traj)
     u = np.asarray(out[0], dtype=float)
     # the (theta, t) arguments of every PDE_form call = the sequence the spec's Start / Step actions assemble
+    done = c["status"] == "done"          # "abandoned": TLC followed the recurrence up to 32-bit limits; compare that prefix
     exp_times = _qv(c["calls"])
     got_times = np.array([t for _, t in calls])
+    if not done:
+        got_times = got_times[:len(exp_times)]
     if len(got_times) != len(exp_times) or not np.array_equal(got_times, exp_times) or any(not np.array_equal(p, th) for p, _ in calls):
         ctx.mismatch(key + "/form_calls", c, "PDE_form is not assembled at the documented time levels (initial time, then t_idx for "
                      "forward / t_idx+1 for backward Euler) with the supplied parameter", exp_times, got_times)
     # every stored level
-    if u.shape != traj.shape:
-        ctx.mismatch(key + "/trajectory_shape", c, "solution is not (nodes x time levels)", traj.shape, u.shape)
+    if u.shape != (n, len(T)):
+        ctx.mismatch(key + "/trajectory_shape", c, "solution is not (nodes x time levels)", (n, len(T)), u.shape)
         return
     for j in range(traj.shape[1]):
         if not _close(u[:, j], traj[:, j]):
@@ -292,6 +299,9 @@ def check_time(ctx, cuqi, c, idx):
             ctx.mismatch(key + "/solver_args", c, "linear solver is not called once per step as linalg_solve(A, b, **kwargs)",
                          len(T) - 1, len(slog))
         ctx.observations.setdefault("backward_euler_info", {})[str(c["ret"])] = repr(out[1])
+    if not done:
+        ctx.observations["time_cases_abandoned"] = ctx.observations.get("time_cases_abandoned", 0) + 1
+        return
     # Observe (restriction at coinciding nodes and times), then the map
     obs_exp = _qm(c["obs"])
     obs_exp = _apply(c["omap"], obs_exp)
@@ -311,7 +321,8 @@ def check_time(ctx, cuqi, c, idx):
     if c["omode"] == "final":
         ctx.case(("time-model", c["A0"], c["T"], c["th"], method, c["omap"]), facet="model/time")
         try:
-            model = _quiet(lambda: cuqi.model.PDEModel(pde, range_geometry=n, domain_geometry=2))
+            pde_m = cuqi.pde.TimeDependentLinearPDE(form, **kw)       # fresh object, first assembled for another parameter
+            model = _quiet(lambda: cuqi.model.PDEModel(pde_m, range_geometry=n, domain_geometry=2))
             _quiet(lambda: model.forward(th + 1.0))
             y = np.asarray(_quiet(lambda: model.forward(th)), dtype=float)
         except Exception as e:
@@ -319,6 +330,32 @@ def check_time(ctx, cuqi, c, idx):
             return
         if not _close(y, obs_exp, 1e-9):
             ctx.mismatch(key + "/model_forward", c, "PDEModel.forward is not Observe(Solve(Assemble(theta)))", obs_exp, y)
+
+
+def _method_spelling(ctx, cuqi, c, kw, th, traj):
+    """The method setter validates the name case-insensitively; a spelling it ACCEPTS has to select the same recurrence."""
+    method = c["method"]
+    spelled = method.upper()
+    form2, _, _ = _time_form(c, [])
+    kw2 = dict(kw, method=spelled)
+    kw2.pop("linalg_solve", None)
+    kw2.pop("linalg_solve_kwargs", None)
+    ctx.case(("time-method-case", method, c["A0"], c["T"], c["th"]), facet="time/method_case")
+    try:
+        pde2 = cuqi.pde.TimeDependentLinearPDE(form2, **kw2)
+    except Exception as e:
+        ctx.observe("method_name_uppercase", "rejected at construction (%s)" % type(e).__name__)
+        return
+    try:
+        pde2.assemble(th)
+        u2 = np.asarray(_quiet(pde2.solve)[0], dtype=float)
+    except Exception as e:
+        ctx.mismatch("time/method_case/%s/raises/%s" % (method, type(e).__name__), c,
+                     "method=%r is accepted by the constructor but solve() raises %r" % (spelled, e), traj, repr(e))
+        return
+    if u2.shape != traj.shape or not _close(u2, traj):
+        ctx.mismatch("time/method_case/%s/level" % method, c, "method=%r is accepted but does not follow the %s recurrence"
+                     % (spelled, method), traj, u2)
 
 
 def _restrict(u, x, T, gobs, tobs):
